@@ -77,8 +77,10 @@ func (p *NumInfo) decimal(v *apd.Decimal) error {
 	}
 	_ = v.UnmarshalText(p.buf)
 	if p.mul != 0 {
-		_, _ = baseContext.Mul(v, v, mulToRat[p.mul])
-		cond, _ := baseContext.RoundToIntegralExact(v, v)
+		// Apply the multiplier exactly: a precision of zero disables rounding,
+		// so that an integer with a multiplier keeps all of its digits.
+		_, _ = apd.BaseContext.Mul(v, v, mulToRat[p.mul])
+		cond, _ := apd.BaseContext.RoundToIntegralExact(v, v)
 		if cond.Inexact() {
 			return p.errorf("number cannot be represented as int")
 		}
